@@ -160,6 +160,10 @@ func (in *Interp) digitsOf(t *Term, signed bool) StrV {
 	s := StrV{Mem: m, Off: tb.Int(0), Len: total, Max: nd + 1}
 	in.digitCache[t] = s
 	in.digitList = append(in.digitList, t)
+	if in.digitSigned == nil {
+		in.digitSigned = map[*Term]bool{}
+	}
+	in.digitSigned[t] = signed
 	return s
 }
 
